@@ -28,7 +28,7 @@ MUT_CL = ["dup_cl_same", "dup_cl_diff", "cl_list_same", "cl_list_diff", "cl_plus
 MUT_TE = ["te_case", "te_pad", "te_cl_both", "te_gzip", "te_identity", "te_gzip_chunked", "te_chunked_gzip",
           "te_chunked_chunked", "te_two_fields", "te_vt", "te_xchunked", "te_empty_elem_lead", "te_empty_elem_trail",
           "te_param", "te_on_10", "te_on_10_keepalive", "te_underscore_alias", "te_on_versionless"]
-MUT_CHUNK = ["csize_empty", "csize_plus", "csize_0x", "csize_ws_before", "csize_ws_after", "csize_bare_lf",
+MUT_CHUNK = ["csize_leading_crlf", "csize_empty", "csize_plus", "csize_0x", "csize_ws_before", "csize_ws_after", "csize_bare_lf",
              "csize_nonascii", "csize_huge", "csize_upper", "csize_leading_zeros", "csize_underscore", "csize_vt",
              "cext_valid_token", "cext_valid_noval", "cext_valid_quoted", "cext_semicolon_only", "cext_no_name",
              "cext_empty_val", "cext_unterminated_quote", "cext_ctl", "cext_lf", "cext_bws", "cext_bws2",
@@ -43,7 +43,7 @@ STRICT_REJECT = set("""hdr_bare_lf_term hdr_bare_cr_term hdr_lf_in_value hdr_cr_
  te_gzip te_identity te_gzip_chunked te_chunked_gzip te_chunked_chunked te_two_fields te_vt te_xchunked
  csize_empty csize_plus csize_0x csize_ws_before csize_ws_after csize_bare_lf csize_nonascii csize_huge
  csize_underscore csize_vt cext_semicolon_only cext_no_name cext_empty_val cext_unterminated_quote cext_ctl cext_lf
- cdata_no_crlf cdata_lf_only cdata_cr_only last_bare_lf trailer_bare_lf trailer_no_colon trailer_ws_before_colon
+ cdata_no_crlf cdata_lf_only cdata_cr_only last_bare_lf csize_leading_crlf trailer_bare_lf trailer_no_colon trailer_ws_before_colon
  trailer_bad_name trailer_end_lf trailer_ctl""".split())
 ACCEPT_VARIANTS = set("""te_case te_pad cl_leading_zeros cl_underscore_alias te_underscore_alias csize_upper
  csize_leading_zeros cext_valid_token cext_valid_noval cext_valid_quoted last_ext last_00 trailer_valid""".split())
@@ -323,7 +323,10 @@ def apply_mutation(m, label, W):
         c = m["chunks"][W.draw(len(m["chunks"]))]
         n = len(c["data"])
         hx = b"%X" % n
-        if label == "csize_empty":
+        if label == "csize_leading_crlf":
+            # an empty line in front of an otherwise valid chunk-size line
+            c["size"] = b"\r\n" + hx
+        elif label == "csize_empty":
             c["size"] = b""
         elif label == "csize_plus":
             c["size"] = b"+" + hx
